@@ -16,7 +16,7 @@ REF_NOTE = "TLA+ used as an executable reference (decision procedure) rather tha
 CLAIMED = {
     **{p: dict(engine="mux", technique="TLA+ spec (PenguinMux) model-checked with TLC + TLC trace validation of real-code executions from a deterministic simulator",
                text=MUX_TEXT, note=MUX_NOTE, ref="DESIGN.md sections 2-4")
-       for p in ("C02", "C03", "C04", "C05", "C06", "C07", "C08", "C10", "C11", "C15")},
+       for p in ("C02", "C03", "C04", "C05", "C06", "C07", "C08", "C10", "C11", "C13", "C15")},
     "C09": dict(engine="frame", technique="TLA+ reference codec (Frame.tla) enumerated by TLC; every case replayed on the real codec and every observation validated by TLC",
                 text="TLC enumerates encode cases over corner field domains and ALL byte strings up to a small length over a boundary alphabet (plus structured strings behind every opcode) from a reference codec written from PROTOCOL.md; the real encoder/decoder (all constructors, borrowed/owned/vectored, production profile for decoding) is run on every case and on seeded random frames/strings, and TLC validates every logged observation against the reference.",
                 note=REF_NOTE, ref="DESIGN.md section 4 (C09)"),
@@ -47,7 +47,6 @@ for p in props:
 PENDING = {
     "C01": "end-to-end tunnel driver not built yet in this session",
     "C12": "loom-driven conformance (hook H1) not built yet in this session",
-    "C13": "bridge model and driver not built yet in this session",
     "C14": "decision table and in-process gate driver under construction",
     "C17": "TLS matrix driver under construction",
     "C19": "back-off / reconnection drivers under construction",
